@@ -16,7 +16,7 @@ import (
 func init() { Registry["C08"] = C08 }
 
 var c08Paths = []string{"print", "assign", "concat", "concat-direct", "compare", "compare-var-right", "argument", "argument-direct", "return", "slice-store-literal", "slice-store-assign", "range", "subscript", "len", "write-read", "direct-measure", "direct-store"}
-var c08Origins = []string{"literal", "file", "stdin", "command", "stdin-in-function"}
+var c08Origins = []string{"literal", "file", "stdin", "command", "stdin-in-function", "literal-in-function"}
 var c08Positions = []string{"only", "first", "middle", "last"}
 
 func c08Value(c byte, pos string) string {
@@ -37,6 +37,18 @@ func c08Program(v, path, origin string) (src string, stdin string, pre map[strin
 	pre = map[string]string{}
 	wantFiles = map[string]string{}
 	var b strings.Builder
+	// origin literal-in-function: the program of the literal origin with everything but its function definitions
+	// moved into the body of a function that is called once (a literal inside a function body is emitted, indented
+	// and scoped by other code than one at top level)
+	inFunction := origin == "literal-in-function"
+	if inFunction {
+		origin = "literal"
+	}
+	defer func() {
+		if inFunction && ok {
+			src = c08IntoFunction(src)
+		}
+	}()
 	switch origin {
 	case "literal":
 		b.WriteString("v := " + q(v) + "\n")
@@ -163,6 +175,27 @@ func c08Program(v, path, origin string) (src string, stdin string, pre map[strin
 		wantFiles["out.txt"] = v + "\n" + v + "\n"
 	}
 	return b.String(), stdin, pre, wantOut, wantFiles, true
+}
+
+// c08IntoFunction moves every top-level line that is not part of a function definition into `func cell() { ... }`.
+func c08IntoFunction(src string) string {
+	var defs, body []string
+	in := false
+	for _, l := range strings.Split(strings.TrimSuffix(src, "\n"), "\n") {
+		switch {
+		case in:
+			defs = append(defs, l)
+			if l == "}" {
+				in = false
+			}
+		case strings.HasPrefix(l, "func "):
+			in = true
+			defs = append(defs, l)
+		default:
+			body = append(body, "\t"+l)
+		}
+	}
+	return strings.Join(defs, "\n") + "\nfunc cell() {\n" + strings.Join(body, "\n") + "\n}\ncell()\n"
 }
 
 type c08Cell struct {
